@@ -204,6 +204,80 @@ pub fn gen_rect_operand(r: &mut Rng, g: i64, max_parts: u64) -> Operand {
     o
 }
 
+/// One orthogonal "histogram" polygon (columns of different heights over a common base line), under a
+/// random symmetry of the square, optionally with a rectangular hole in its base band. Simple by construction.
+fn histogram(r: &mut Rng) -> (Poly, i64, i64) {
+    let n = 2 + r.below(4) as usize;
+    let mut xs = vec![0i64];
+    let mut hs: Vec<i64> = Vec::new();
+    for i in 0..n {
+        xs.push(xs[i] + 1 + r.below(3) as i64);
+        loop {
+            let h = 2 + r.below(6) as i64;
+            if hs.last() != Some(&h) {
+                hs.push(h);
+                break;
+            }
+        }
+    }
+    let w = xs[n];
+    let mut pts: Vec<[i64; 2]> = vec![[0, 0], [w, 0]];
+    for i in (0..n).rev() {
+        pts.push([xs[i + 1], hs[i]]);
+        pts.push([xs[i], hs[i]]);
+    }
+    let minh = *hs.iter().min().unwrap();
+    let maxh = *hs.iter().max().unwrap();
+    let mut rings: Vec<Vec<[i64; 2]>> = vec![pts];
+    if w >= 3 && minh >= 3 && r.chance(1, 3) {
+        let hx0 = 1 + r.below((w - 2) as u64) as i64;
+        let hx1 = hx0 + 1 + r.below((w - 1 - hx0) as u64) as i64;
+        let hy0 = 1 + r.below((minh - 2) as u64) as i64;
+        let hy1 = hy0 + 1 + r.below((minh - 1 - hy0) as u64) as i64;
+        rings.push(vec![[hx0, hy0], [hx1, hy0], [hx1, hy1], [hx0, hy1]]);
+    }
+    // symmetry of the square
+    let (swap, nx, ny) = (r.chance(1, 2), r.chance(1, 2), r.chance(1, 2));
+    let (bw, bh) = if swap { (maxh, w) } else { (w, maxh) };
+    let poly: Poly = rings.into_iter().map(|ring| {
+        let mut out: Ring = ring.into_iter().map(|p| {
+            let (mut x, mut y) = if swap { (p[1], p[0]) } else { (p[0], p[1]) };
+            if nx { x = bw - x; }
+            if ny { y = bh - y; }
+            [x as f64, y as f64]
+        }).collect();
+        if r.chance(1, 2) {
+            out.reverse();
+        }
+        let k = r.below(out.len() as u64) as usize;
+        out.rotate_left(k);
+        let f = out[0];
+        out.push(f);
+        out
+    }).collect();
+    (poly, bw, bh)
+}
+
+/// 1..=3 orthogonal histogram polygons with pairwise disjoint (at most corner-touching) bounding boxes.
+pub fn gen_ortho_operand(r: &mut Rng, g: i64) -> Operand {
+    let want = 1 + r.below(3) as usize;
+    let mut boxes: Vec<Rect> = Vec::new();
+    let mut o = Operand::new();
+    let mut tries = 0;
+    while o.len() < want && tries < 40 {
+        tries += 1;
+        let (poly, bw, bh) = histogram(r);
+        let x0 = r.below((g + 4) as u64) as i64;
+        let y0 = r.below((g + 4) as u64) as i64;
+        let q = Rect { x0, y0, x1: x0 + bw, y1: y0 + bh };
+        if boxes.iter().all(|p| meet(*p, q) <= 1) {
+            boxes.push(q);
+            o.push(poly.iter().map(|ring| ring.iter().map(|c| [c[0] + x0 as f64, c[1] + y0 as f64]).collect()).collect());
+        }
+    }
+    o
+}
+
 /// Small lattice "star" polygons: vertices at integer points around a centre in angular order.
 /// May be degenerate after rounding; only used where the oracle is equality of a call with itself.
 pub fn gen_star_operand(r: &mut Rng, g: i64) -> Operand {
